@@ -386,7 +386,7 @@ def mon_goaway(ctx, conn):
 CONN_OFFENCE_CODES = {
     0: {FRAME_SIZE}, 1: {FRAME_SIZE}, 2: {PROTOCOL}, 3: {PROTOCOL}, 4: {PROTOCOL}, 5: {PROTOCOL}, 6: {FLOW}, 7: {PROTOCOL},
     8: {PROTOCOL}, 9: {FLOW}, 10: {COMPRESSION}, 11: {PROTOCOL}, 12: {PROTOCOL}, 13: {PROTOCOL}, 14: {FRAME_SIZE},
-    15: {PROTOCOL}, 16: {PROTOCOL}, 17: {0}, 18: {PROTOCOL, STREAM_CLOSED}, 19: {PROTOCOL}, 20: {COMPRESSION},
+    15: {PROTOCOL}, 16: {PROTOCOL}, 17: {0}, 18: {PROTOCOL, STREAM_CLOSED}, 19: {PROTOCOL}, 20: {COMPRESSION}, 21: {FLOW},
 }
 
 STREAM_SCOPED_BY_RFC = {19}     # a trailer section without END_STREAM that goes on in CONTINUATION
